@@ -118,6 +118,27 @@ fn share_json(s: &Share) -> (Value, Value) {
   (json!(limbs(&s.x)), Value::Array(s.y.iter().map(|y| json!(limbs(y))).collect()))
 }
 
+fn big_of(x: &Fp) -> BigUint {
+  BigUint::from_bytes_le(&limbs(x))
+}
+
+/// the k polynomials (highest degree first, n coefficients each) through the first n of the given
+/// shares; an untrusted witness — TLC re-evaluates every share on it.  Shares that cannot be
+/// interpolated (too few, ragged, repeated x) give an all-zero witness, which TLC then rejects.
+fn witness_polys(shares: &[Share], n: usize, k: usize, p: &BigUint) -> Vec<Vec<BigUint>> {
+  let usable = shares.len() >= n && shares[..n].iter().all(|s| s.y.len() == k)
+    && (0..n).all(|i| (0..i).all(|j| shares[i].x != shares[j].x));
+  (0..k)
+    .map(|e| {
+      if !usable {
+        return vec![BigUint::from(0u8); n];
+      }
+      let pts: Vec<(BigUint, BigUint)> = shares[..n].iter().map(|s| (big_of(&s.x), big_of(&s.y[e]))).collect();
+      interpolate(&pts, p)
+    })
+    .collect()
+}
+
 /// `vh shamir-record --out F --seed S --deals N --maxt T`
 pub fn record(a: &Args) -> Report {
   let mut rep = Report::new("shamir-record");
@@ -180,27 +201,37 @@ pub fn record(a: &Args) -> Report {
       }
     };
     rep.evaluations += 1;
-    // expected coefficients: the same source run through the field's own sampler
+    // the random source run through the field's own sampler: the values a dealer can have drawn
+    // (a few more than it needs — the order and grouping of the draws is the dealer's business)
     let mut src2 = src0.clone();
     let nd = if t == 0 { 0 } else { (t as usize - 1) * k };
-    let draws: Vec<Fp> = (0..nd).map(|_| Fp::random(&mut src2)).collect();
+    let draws: Vec<Fp> = (0..nd + 8).map(|_| Fp::random(&mut src2)).collect();
     deal_no += 1;
-    writeln!(f, "{}", json!({"ev":"Deal","t":t,"secret": elems.iter().map(limbs_of_big).collect::<Vec<_>>(),
-      "draws": draws.iter().map(limbs).collect::<Vec<_>>() })).unwrap();
     // shares: sequential iterator, then random points
     let n_next = (t as usize).max(1) + 1;
     let n_gen = 2usize;
     let mut evq = ev;
     let mut mine: Vec<(usize, Share)> = Vec::new();
+    let mut share_lines: Vec<Value> = Vec::new();
     for i in 0..n_next {
       let s = match evq.next() {
         Some(s) => s,
         None => break,
       };
       let (x, y) = share_json(&s);
-      writeln!(f, "{}", json!({"ev":"Share","deal":deal_no,"kind":"next","idx":i+1,"x":x,"y":y})).unwrap();
+      share_lines.push(json!({"ev":"Share","deal":deal_no,"kind":"next","idx":i+1,"x":x,"y":y}));
       nshares_logged += 1;
       mine.push((nshares_logged, s));
+    }
+    // witness for TLC: the k polynomials (highest degree first) through the first max(t,1) shares,
+    // by big-integer interpolation.  TLC checks the witness (constant terms = secret, every other
+    // coefficient a separate one of the draws) and then EVERY share against it.
+    let polys = witness_polys(&mine.iter().map(|(_, s)| s.clone()).collect::<Vec<_>>(), (t as usize).max(1), k, &p);
+    writeln!(f, "{}", json!({"ev":"Deal","t":t,"secret": elems.iter().map(limbs_of_big).collect::<Vec<_>>(),
+      "draws": draws.iter().map(limbs).collect::<Vec<_>>(),
+      "polys": polys.iter().map(|c| c.iter().map(limbs_of_big).collect::<Vec<_>>()).collect::<Vec<_>>() })).unwrap();
+    for l in share_lines {
+      writeln!(f, "{}", l).unwrap();
     }
     let mut prng = rng_from(seed, 9000 + d);
     for _ in 0..n_gen {
@@ -254,6 +285,15 @@ pub fn record(a: &Args) -> Report {
     dup.push(perm[perm.len() - 1]);
     sels.push((dup, vec![]));
     sels.push((idx.clone(), vec![]));
+    if tt >= 1 && perm.len() >= tt {
+      // the t-th distinct share arrives late: one share 2t+3 times, then the other t-1; and every
+      // share three times in a row
+      let mut late = vec![perm[0]; 2 * tt + 3];
+      late.extend(&perm[1..tt]);
+      sels.push((late, vec![]));
+      let triple: Vec<usize> = perm[..tt].iter().flat_map(|i| [*i, *i, *i]).collect();
+      sels.push((triple, vec![]));
+    }
     if tt >= 1 {
       let mut few = perm[..tt - 1].to_vec();
       if !few.is_empty() {
@@ -347,19 +387,25 @@ pub fn record(a: &Args) -> Report {
     let mut src = src0.clone();
     if let Guard::Done(Ok(mut ev)) = guard(|| Sharks(t).dealer_rng(&secret, &mut src).map_err(|e| e.to_string())) {
       let mut src2 = src0.clone();
-      let draws: Vec<Fp> = (0..2).map(|_| Fp::random(&mut src2)).collect();
+      let draws: Vec<Fp> = (0..10).map(|_| Fp::random(&mut src2)).collect();
       deal_no += 1;
-      writeln!(f, "{}", json!({"ev":"Deal","t":t,"secret": elems.iter().map(limbs_of_big).collect::<Vec<_>>(),
-        "draws": draws.iter().map(limbs).collect::<Vec<_>>() })).unwrap();
       let mut kept: Vec<Share> = Vec::new();
+      let mut lines: Vec<Value> = Vec::new();
       for i in 1..=600usize {
         let s = match ev.next() { Some(s) => s, None => break };
         if i <= 3 || (254..=258).contains(&i) || i >= 598 {
           let (x, y) = share_json(&s);
-          writeln!(f, "{}", json!({"ev":"Share","deal":deal_no,"kind":"next","idx":i,"x":x,"y":y})).unwrap();
+          lines.push(json!({"ev":"Share","deal":deal_no,"kind":"next","idx":i,"x":x,"y":y}));
           nshares_logged += 1;
           kept.push(s);
         }
+      }
+      let polys = witness_polys(&kept, 3, 1, &p);
+      writeln!(f, "{}", json!({"ev":"Deal","t":t,"secret": elems.iter().map(limbs_of_big).collect::<Vec<_>>(),
+        "draws": draws.iter().map(limbs).collect::<Vec<_>>(),
+        "polys": polys.iter().map(|c| c.iter().map(limbs_of_big).collect::<Vec<_>>()).collect::<Vec<_>>() })).unwrap();
+      for l in lines {
+        writeln!(f, "{}", l).unwrap();
       }
       rep.evaluations += 600;
       let last: Vec<Share> = kept.iter().rev().take(3).cloned().collect();
